@@ -16,7 +16,7 @@ def truth_params(model_key, **over):
 
 def make_arrays(model_key, params, n_app=300, n_ret=300, x_start=2e-6,
                 depth=1e-6, noise=0.0, seed=0, k_spring=0.05, tilt=0.0,
-                drift=0.0, lag=0, quant=0.0, nonuniform=False):
+                drift=0.0, lag=0, quant=0.0, nonuniform=False, drive="linear"):
     """approach from cp+x_start down to cp-depth, retract back.
 
     tilt: linear force trend in space [N/m]; drift: linear in time [N/s];
@@ -27,7 +27,11 @@ def make_arrays(model_key, params, n_app=300, n_ret=300, x_start=2e-6,
     from nanite import model as nmodel
     md = nmodel.models_available[model_key]
     cp = params["contact_point"]
-    if nonuniform:
+    if drive == "cos":
+        # smooth z-drive: decelerates towards the turning point
+        ua = np.sin(np.pi / 2 * np.linspace(0, 1, n_app))
+        ur = 1 - np.cos(np.pi / 2 * np.linspace(0, 1, n_ret + 1)[1:])
+    elif nonuniform:
         ua = np.linspace(0, 1, n_app) ** 1.7
         ur = np.linspace(0, 1, n_ret + 1)[1:] ** 0.6
     else:
